@@ -32,6 +32,26 @@ def build_case(rng, spec, tier):
     return {"engine": "readonly", "cfg": cfg, "ops": ops, "aseed": rng.getrandbits(32), "points": sorted({rng.randrange(len(ops) + 1) for _ in range(tp.get("points", 2))} | {len(ops)})}
 
 
+def scale_case(rng, kind, n):
+    """'big': the scale history of the history engine (thousands of pages and links in one webentity);
+    'hub': one page whose inbound chain holds more than 65536 entries (70 repeats of 1000 sources in
+    one request: a 16-bit counter, a chain-length guard) and whose outbound chain holds 66000 more."""
+    if kind == "big":
+        from .history import big_case
+
+        h = big_case(rng, n, merged_prefixes=0)
+        ops = [o for o in h["ops"] if o["op"] != "reopen"]
+        return {"engine": "readonly", "cfg": h["cfg"], "ops": ops, "aseed": rng.getrandbits(32), "points": [len(ops)], "probes": h["probes"], "scale": kind}
+    site = b"s:http|h:com|h:hub|"
+    hub = site + b"p:hub|"
+    srcs = [site + b"p:s%04d|" % i for i in range(1000)]
+    ops = [{"op": "add_pages", "lrus": [hub] + srcs, "crawled": True, "as_str": False},
+           {"op": "add_links", "links": [[s_, hub] for s_ in srcs] * 66, "as_str": False},
+           {"op": "add_links", "links": [[hub, s_] for s_ in srcs[:300]] * 220, "as_str": False}]
+    cfg = {"backend": rng.choice(["file", "memory"]), "default": "domain", "encoding": "utf-8", "overwrite": False, "rules": []}
+    return {"engine": "readonly", "cfg": cfg, "ops": ops, "aseed": rng.getrandbits(32), "points": [len(ops)], "probes": [hub, srcs[0], site], "scale": kind}
+
+
 def monitored_battery(sut, rng, stats, out, t=None, probes=None, lite=False):
     t = t or sut.t
     if probes is None:
@@ -147,6 +167,10 @@ def run_case(prop, case, spec, scratch, stats):
         pts = set(case["points"])
         for i in range(len(case["ops"]) + 1):
             if i in pts:
+                if case.get("scale"):
+                    stats["C14_batteries_on_scale_states"] += 1
+                    monitored_battery(sut, rng, stats, out, probes=list(case["probes"]) + probes_for(sut, rng)[:3], lite="scale")
+                    break
                 monitored_battery(sut, rng, stats, out)
                 if out:
                     break
@@ -219,15 +243,23 @@ def run_shard(prop, spec, tier, seed, shard, nshards, scratch):
         res["notes"].append("public Traph methods neither in the read-only nor in the writer list (not exercised by the battery): %s" % un)
     deadline = time.time() + tp.get("time_cap", 600)
     saved = 0
-    for idx in range(tp["cases"]):
-        if idx % nshards != shard:
-            continue
+    todo = [("gen", idx) for idx in range(tp["cases"]) if idx % nshards == shard]
+    for j, kind in enumerate(("big", "hub")):
+        if tp.get("scale") and (nshards - 1 - j) % nshards == shard:
+            todo.insert(0, (kind, tp["scale"]))
+    for kind, idx in todo:
         if time.time() > deadline:
             res["notes"].append("shard %d stopped at time cap after %d cases" % (shard, res["cases"]))
             break
-        rng = random.Random("%s/%s/%s/%s" % (seed, prop, tier, idx))
-        case = build_case(rng, spec, tier)
-        case["id"] = "%s/%s/%s/%s" % (seed, prop, tier, idx)
+        if kind != "gen":
+            rng = random.Random("%s/%s/scale/%s" % (seed, prop, kind))
+            case = scale_case(rng, kind, idx)
+            case["id"] = "scale/%s" % kind
+            idx = "scale_" + kind
+        else:
+            rng = random.Random("%s/%s/%s/%s" % (seed, prop, tier, idx))
+            case = build_case(rng, spec, tier)
+            case["id"] = "%s/%s/%s/%s" % (seed, prop, tier, idx)
         ds, feats, digest = run_case(prop, case, spec, scratch, stats)
         res["cases"] += 1
         if feats and spec["nontrivial"](feats):
